@@ -131,6 +131,48 @@ def cases(tier, seed):
         for u2, _ in UN:
             t = ('u', u, ('u', u2, ('c', 6)))
             out.append(('.dq ' + g.render(t, 0, 0), g.toks(t)))
+    # 2a. two operators of one level in a row, no parentheses, on operands where only the left-to-right grouping
+    #     gives the documented result (the other grouping overflows, or does not, or divides by another value)
+    lv = {n: l for n, _, l in BIN}
+    wide = [MAX, MIN, MIN + 1, 1, -1, 2, 0, 63, 64, -5]
+    narrow = [0, 1, -1, MAX, 2]
+    for n1, _, l1 in BIN:
+        for n2, _, l2 in BIN:
+            if l1 != l2: continue
+            pts = wide if l1 >= 8 else narrow
+            for a in pts:
+                for b in pts:
+                    for c in pts:
+                        t = ('b', n2, ('b', n1, g.const(a), g.const(b)), g.const(c))
+                        out.append(('.dq ' + g.render(t, 0, 0), g.toks(t)))
+    # 2c. deep but legal expressions: long chains of one operator, stacked unary operators, nested functions,
+    #     with a symbol (defined by an expression of its own) at the bottom; chains of definitions
+    g.syms = {'base': 16}
+    for depth in (30, 99, 100, 101, 150, 400):
+        t = ('s', 'base')
+        for i in range(depth): t = ('b', 'add', t, ('c', 1))
+        out.append(('.equ base = 2*8\n.dq ' + g.render(t, 0, 0), g.toks(t)))
+        t = ('s', 'base')
+        for i in range(depth): t = ('b', 'bor', ('c', 1 << (i % 60)), t)
+        out.append(('.equ base = 2*8\n.dq ' + g.render(t, 0, 0), g.toks(t)))
+        t = ('s', 'base')
+        for i in range(depth): t = ('u', ['minus', 'bnot'][i % 2], t)
+        out.append(('.dq ' + g.render(t, 0, 0) + '\n.equ base = 2*8', g.toks(t)))
+        t = ('s', 'base')
+        for i in range(depth): t = ('f', ['lwrd', 'low', 'byte2'][0 if i % 3 else 1 if i % 2 else 0], t)
+        out.append(('.equ base = 2*8\n.dq ' + g.render(t, 0, 0), g.toks(t)))
+    for links in (5, 49, 50, 51, 90, 99):
+        g.syms = {'a%d' % links: links}
+        src = ['.equ a0 = 0*1'] + ['.equ a%d = a%d + 1' % (i, i - 1) for i in range(1, links + 1)]
+        g.r.shuffle(src)
+        t = ('s', 'a%d' % links)
+        out.append(('\n'.join(src + ['.dq a%d' % links]), g.toks(t)))
+    g.syms = {}
+    # 2d. character literals: the value is the character's code point, ASCII or not
+    for ch in ['A', ' ', ';', '"', ',', '~', '\x7f', '\u00e9', '\u00ff', '\u03a9', '\u20ac', '\U0001f600']:
+        v = ord(ch)
+        for txt, tk in (("'%s'" % ch, ['c%d' % v]), ("'%s' - 1" % ch, ['bsub', 'c%d' % v, 'c1']), ("high('%s')" % ch, ['fhigh', 'c%d' % v]), ("'%s'<<8|low('%s')" % (ch, ch), ['bbor', 'bshl', 'c%d' % v, 'c8', 'flow', 'c%d' % v])):
+            out.append(('.dq ' + txt, tk))
     # 2b. a failing operand fails the whole expression whatever the operator and the other operand
     #     (in particular && and || evaluate BOTH operands: a deciding left operand does not hide a fault on the right)
     g.syms = {'nosuch': None}
@@ -197,7 +239,7 @@ def run(tier, seed, model_ok):
             vio.append({'what': 'oracle could not judge (harness bug)', 'source': src, 'impl': a[:60], 'expected': s, 'key': 'oracle'})
     return {
         'evaluations': len(cs), 'distinct_nontrivial': len({c[0] for c in cs}),
-        'rule': 'every binary operator on the boundary grid (0, +-1, small, powers of two +-1, i64 min/max; full grid for arithmetic and shifts, every second point plus the extremes for the others in the quick tier), every unary operator and function on the grid, every ordered pair of binary operators in both groupings rendered with minimal parentheses, unary x binary and unary x unary, and seeded random trees (depth <= 6) over all operators/functions with .equ symbols before/after use, labels, random spacing, radix and letter case; distinct = distinct source texts',
+        'rule': 'every binary operator on the boundary grid (0, +-1, small, powers of two +-1, i64 min/max; full grid for arithmetic and shifts, every second point plus the extremes for the others in the quick tier), every unary operator and function on the grid, every ordered pair of binary operators in both groupings rendered with minimal parentheses, unary x binary and unary x unary, every two operators of one level in a row on boundary triples (10^3 for shifts and arithmetic, 5^3 for the others) where the groupings differ by overflow, deep legal expressions (chains, stacked unary operators, nested functions of depth 30..400 over a symbol; definition chains of 5..99 links), character literals ASCII and not, and seeded random trees (depth <= 6) over all operators/functions with .equ symbols before/after use, labels, random spacing, radix and letter case; distinct = distinct source texts',
         'samples': [cs[3][0], cs[len(cs) // 2][0], cs[-1][0]],
         'exhaustive': False,
         'distribution': {'values': vals, 'must_fail': fails, 'root_ops': Counter(c[1][0] for c in cs).most_common(8)},
